@@ -29,7 +29,7 @@ ASSUMPTIONS = [
 ]
 
 EPS32 = float(np.finfo(np.float32).eps)
-FAMILIES = ["const", "b1", "b2", "b4", "b8", "outlier", "offset", "grid", "step", "ramp", "tiny", "huge", "bandpass", "mixed"]
+FAMILIES = ["const", "b1", "b2", "b4", "b8", "outlier", "offset", "grid", "step", "ramp", "tiny", "huge", "bandpass", "mixed", "double"]
 
 
 def prime():
@@ -65,6 +65,13 @@ def make(kind, n, nch, seed):
     if kind == "ramp":
         x = rng.integers(-16, 17, (n, nch)) / 8 + np.round(np.linspace(0, float(rng.choice([8, 64, -200])), n) * 8)[:, None] / 8
         return x.astype(np.float32)
+    if kind == "double":
+        # double-precision input (the accumulator is single precision): constant channels at values that single precision
+        # cannot represent (0.1, 1/3) next to channels on a decimal grid
+        x = np.empty((n, nch), dtype=np.float64)
+        for c in range(nch):
+            x[:, c] = [0.1, 1.0 / 3.0, 123.456][c % 3] if c % 2 == 0 else rng.integers(-50, 51, n) / 10.0
+        return x
     if kind == "mixed":
         # a quiet channel next to one with strong interference: variances differ by more than 1e7 (sigma by > 3000)
         x = np.empty((n, nch), dtype=np.float64)
@@ -96,9 +103,11 @@ def compare(st_, x, what, ctxt, full):
     ref = oracles.two_pass_moments(x)
     cnt = np.asarray(st_.moments["count"])
     require(np.all(cnt == n), f"{what}:count", f"{ctxt}: {cnt.tolist()} != {n}")
-    if not np.array_equal(np.asarray(st_.minima, dtype=np.float64), ref["min"]):
+    # extrema are kept in single precision: exact for uint8/float32 input, the nearest float32 for double-precision input
+    rmin, rmax = ref["min"].astype(np.float32).astype(np.float64), ref["max"].astype(np.float32).astype(np.float64)
+    if not np.array_equal(np.asarray(st_.minima, dtype=np.float64), rmin):
         raise Violation(f"{what}:min", f"{ctxt}: {st_.minima.tolist()} vs {ref['min'].tolist()}")
-    if not np.array_equal(np.asarray(st_.maxima, dtype=np.float64), ref["max"]):
+    if not np.array_equal(np.asarray(st_.maxima, dtype=np.float64), rmax):
         raise Violation(f"{what}:max", f"{ctxt}: {st_.maxima.tolist()} vs {ref['max'].tolist()}")
     g = 10 * EPS32 * (np.sqrt(n) + 4)
     amax = float(np.abs(x.astype(np.float64)).max()) + 1e-30
@@ -201,7 +210,7 @@ def check(case, ctx):
 
 def enum_compositions(tier):
     nmax = 10 if tier == "quick" else 13
-    fams = ["b1", "b8", "offset", "grid", "outlier", "const", "step", "tiny", "bandpass", "mixed"] if tier == "quick" else FAMILIES
+    fams = ["b1", "b8", "offset", "grid", "outlier", "const", "step", "tiny", "bandpass", "mixed", "double"] if tier == "quick" else FAMILIES
     for fam in fams:
         for mode in ("basic", "full"):
             for n in range(2, nmax + 1):
